@@ -700,14 +700,19 @@ theorem C11_store_laws : C11_store_laws_stmt := by
     obtain ⟨rfl, rfl⟩ := StoreTransparent.sshiftS_transparent hZ hf hs
     exact ⟨C11_open_not_free z i zu sh hf hb.symm, rfl, rfl⟩
 
-/-- (pending — stated, not proved) With enough fuel `openS` and `freeAtS` do answer on fully solved terms (the
-counterpart of the second half of `C11_store_shift_transparent`, which is proved for `sshiftS` / `ushiftS`). -/
+/-- With enough fuel `openS` and `freeAtS` do answer on fully solved terms (the counterpart of the second half of
+`C11_store_shift_transparent`); `f0 = n + size zt + m + size zu + 1` works. -/
 def C11_store_open_fv_total_stmt : Prop :=
   ∀ (n m i sh : Nat) (t u zt zu : Tm) (s : St),
     zonk n s.store t = some zt → zt.holeFree = true →
     zonk m s.store u = some zu → zu.holeFree = true →
     ∃ f0, ∀ f, f0 ≤ f →
       openS f t i u sh s = .ok (openT zt i zu sh) s ∧ freeAtS f s.store t i = some (freeAt zt i)
+theorem C11_store_open_fv_total : C11_store_open_fv_total_stmt := by
+  intro n m i sh t u zt zu s hz hf hzu hfu
+  refine ⟨n + zt.size + m + zu.size + 1, fun f hle => ⟨?_, ?_⟩⟩
+  · exact StoreTransparent.openS_total hz hf hzu hfu (by omega)
+  · exact StoreTransparent.freeAtS_total hz hf (by omega)
 
 /-! ### Non-vacuity: a store with a chain of solved cells with non-zero shifts (cell 0 mentions cell 1 shifted by
 one; cell 2 is unsolved and unreachable), a term under a binder mentioning cell 0 shifted by two -/
